@@ -342,8 +342,11 @@ def e_b3_qlm(w, q, out, ctx):
     return (s, l_, b.smallqlm, b.largeQlm)
 
 
+# every analysis object (b) meets both values of every method flag: a flag confounded with the object would never show a
+# buffer / cache shared between the two branches on one live object
 @entry("boo_3d.ql_Ql", "boo", [{"b": 0, "cg": False, "fmt": "npy"}, {"b": 1, "cg": True, "fmt": "dat"},
-                              {"b": 2, "cg": True, "fmt": "npy"}], dims=(3,), tri=True, out=True)
+                              {"b": 2, "cg": True, "fmt": "npy"}, {"b": 0, "cg": True, "fmt": "dat"},
+                              {"b": 1, "cg": False, "fmt": "npy"}, {"b": 2, "cg": False, "fmt": "dat"}], dims=(3,), tri=True, out=True)
 def e_b3_ql(w, q, out, ctx):
     name = ("ql.npy" if q["fmt"] == "npy" else "ql.dat") if out else None
     res = _boo3(w, q["b"], ctx).ql_Ql(coarse_graining=q["cg"], outputfile=name)
@@ -353,7 +356,8 @@ def e_b3_ql(w, q, out, ctx):
 
 
 @entry("boo_3d.sij_ql_Ql", "boo", [{"b": 0, "cg": False, "c": 0.7, "o": "both"}, {"b": 1, "cg": True, "c": 0.3, "o": "sij"},
-                                  {"b": 0, "cg": False, "c": 0.3, "o": "ql"}], dims=(3,), tri=True, out=True)
+                                  {"b": 0, "cg": False, "c": 0.3, "o": "ql"}, {"b": 0, "cg": True, "c": 0.7, "o": "sij"},
+                                  {"b": 1, "cg": False, "c": 0.3, "o": "both"}], dims=(3,), tri=True, out=True)
 def e_b3_sij(w, q, out, ctx):
     oq = "sum_sij.csv" if out and q["o"] in ("both", "ql") else None
     osij = "sij.dat" if out and q["o"] in ("both", "sij") else None
@@ -372,7 +376,8 @@ def e_b3_sij(w, q, out, ctx):
 
 
 @entry("boo_3d.w_W_cap", "boo", [{"b": 2, "cg": False, "fmt": "npy"}, {"b": 0, "cg": True, "fmt": "dat"},
-                                {"b": 3, "cg": True, "fmt": "npy"}], dims=(3,), tri=True, out=True)
+                                {"b": 3, "cg": True, "fmt": "npy"}, {"b": 2, "cg": True, "fmt": "dat"},
+                                {"b": 3, "cg": False, "fmt": "dat"}], dims=(3,), tri=True, out=True)
 def e_b3_w(w, q, out, ctx):
     ow = ("w.npy" if q["fmt"] == "npy" else "w.txt") if out else None
     oc = ("wcap.npy" if q["fmt"] == "npy" else "wcap.dat") if out else None
@@ -383,7 +388,8 @@ def e_b3_w(w, q, out, ctx):
     return (a, b)
 
 
-@entry("boo_3d.spatial_corr", "boo", [{"b": 0, "cg": False}, {"b": 1, "cg": True}], dims=(3,), tri=True, out=True)
+@entry("boo_3d.spatial_corr", "boo", [{"b": 0, "cg": False}, {"b": 1, "cg": True}, {"b": 0, "cg": True}, {"b": 1, "cg": False}],
+       dims=(3,), tri=True, out=True)
 def e_b3_sc(w, q, out, ctx):
     of = "gl.csv" if out else ""
     res = _boo3(w, q["b"], ctx).spatial_corr(coarse_graining=q["cg"], rdelta=0.1, outputfile=of)
@@ -392,7 +398,8 @@ def e_b3_sc(w, q, out, ctx):
     return res
 
 
-@entry("boo_3d.time_corr", "boo", [{"b": 0, "cg": False}, {"b": 1, "cg": True}], dims=(3,), tri=True, out=True)
+@entry("boo_3d.time_corr", "boo", [{"b": 0, "cg": False}, {"b": 1, "cg": True}, {"b": 0, "cg": True}, {"b": 1, "cg": False}],
+       dims=(3,), tri=True, out=True)
 def e_b3_tc(w, q, out, ctx):
     of = "gt.csv" if out else ""
     res = _boo3(w, q["b"], ctx).time_corr(coarse_graining=q["cg"], dt=w.dt, outputfile=of)
@@ -420,7 +427,8 @@ def e_b2_l(w, q, out, ctx):
     return (res, b.ParticlePhi)
 
 
-@entry("boo_2d.time_average", "boo", [{"b": 0, "w": 1, "ac": True}, {"b": 1, "w": -1, "ac": False}, {"b": 0, "w": -1, "ac": True}],
+@entry("boo_2d.time_average", "boo", [{"b": 0, "w": 1, "ac": True}, {"b": 1, "w": -1, "ac": False}, {"b": 0, "w": -1, "ac": True},
+                                      {"b": 0, "w": 1, "ac": False}, {"b": 1, "w": 1, "ac": True}],
        dims=(2,), tri=True, out=True)
 def e_b2_ta(w, q, out, ctx):
     win = q["w"] if q["w"] > 0 else w.T - 1
@@ -470,7 +478,7 @@ def _dyn(cls, w, c, ctx, tag):
 
 
 @entry("Dynamics.relaxation", "dyn", [{"c": 0, "cond": False}, {"c": 1, "cond": True}, {"c": 2, "cond": False},
-                                      {"c": 3, "cond": True}], tri=True, out=True)
+                                      {"c": 3, "cond": True}, {"c": 0, "cond": True}, {"c": 1, "cond": False}], tri=True, out=True)
 def e_dyn(w, q, out, ctx):
     of = "dyn.csv" if out else ""
     d = _dyn(Dynamics, w, _DYN[q["c"]], ctx, "dyn")
@@ -500,7 +508,8 @@ def e_sq4(w, q, out, ctx):
     return res
 
 
-@entry("LogDynamics.relaxation", "dyn", [{"c": 0, "cond": False}, {"c": 1, "cond": True}, {"c": 3, "cond": False}],
+@entry("LogDynamics.relaxation", "dyn", [{"c": 0, "cond": False}, {"c": 1, "cond": True}, {"c": 3, "cond": False},
+                                         {"c": 0, "cond": True}],
        tri=True, out=True)
 def e_logdyn(w, q, out, ctx):
     of = "logdyn.csv" if out else ""
@@ -721,7 +730,8 @@ def e_pc(w, q, out, ctx):
 # ============================================================================= Hessian
 
 _HS = [{"model": "lj", "shift": True, "n": 0, "se": True, "sh": True}, {"model": "ipl", "shift": False, "n": 1, "se": True, "sh": False},
-       {"model": "hz", "shift": True, "n": 0, "se": False, "sh": True}, {"model": "lj", "shift": False, "n": 1, "se": False, "sh": False}]
+       {"model": "hz", "shift": True, "n": 0, "se": False, "sh": True}, {"model": "lj", "shift": False, "n": 1, "se": False, "sh": False},
+       {"model": "lj", "shift": True, "n": 0, "se": False, "sh": False}, {"model": "ipl", "shift": True, "n": 0, "se": True, "sh": True}]
 
 
 def _hess_setup(w, c, ctx):
@@ -737,7 +747,7 @@ def _hess_setup(w, c, ctx):
     return ip, h
 
 
-@entry("HessianMatrix.diagonalize_hessian", "hess", [{"i": 0}, {"i": 1}, {"i": 2}, {"i": 3}], tri=True, out=True)
+@entry("HessianMatrix.diagonalize_hessian", "hess", [{"i": 0}, {"i": 1}, {"i": 2}, {"i": 3}, {"i": 4}, {"i": 5}], tri=True, out=True)
 def e_hess(w, q, out, ctx):
     c = _HS[q["i"]]
     ip, h = _hess_setup(w, c, ctx)
